@@ -3,6 +3,9 @@ exception.
 
 Implementation (working tree): the five functions of geff.validate.segmentation.
 Model: lean/GeffModel/Segmentation.lean through Drivers/C19.lean; theorems GeffProps.C19.
+Source-derived model: translator T13 (harness/translators/t13_pydo_segmentation.py) regenerates
+lean/Gen/Segmentation.lean from the five functions on every run; GeffProps.C19Gen proves the generated
+functions equal to the hand-written model (all inputs) and restates the C19 theorems on them.
 Oracle (independent of the model): each documented condition evaluated in plain Python over the
 flat label list with exact rational arithmetic (fractions.Fraction); where the implementation's
 float product `c * s` is not exact and rounding changes an index or a comparison, the case is
@@ -932,7 +935,9 @@ def _work(case):
 
 
 def run(ck: common.Check):
-    ck.prove(["GeffProps.C19"])
+    # C19Gen: the five functions as translated from the working tree (T13, Gen/Segmentation.lean) are
+    # proved equal to the hand-written model, and the C19 theorems are restated on them
+    ck.prove(["GeffProps.C19", "GeffProps.C19Gen"])
     ck.rule = ("cases = corpus + (has_valid_seg_id) presence x 13 dtypes x 5 missing patterns + (axes_match) axes None/[]/1..5 x rank "
                "1..4 + (graph_is_in_seg_bounds) label volumes of rank 3 and 4 with extents 1..3, axes lists of length rank-1..rank+1 "
                "with every maximum in {None,0,extent-1,extent} (scaled), 7 scale vectors incl. wrong lengths + (time points) time axis "
@@ -1011,6 +1016,11 @@ def run(ck: common.Check):
                 e2 = {k: v for k, v in exp.items() if k != "sensitive"}
                 if mo != e2:
                     ck.corr_broken(f"C19:{kind}:model-vs-oracle", c, e2, mo)
+    # primitive stream: the primitives of GeffModel/PyDoSeg.lean (what the generated code calls) against Python /
+    # numpy, also at the points the guards of the source exclude
+    from harness.corr import _c19_prims
+
+    _c19_prims.run(ck, drv, unstr)
     ck.extra["argument_flavour_histogram"] = fl_hist
     ck.extra["rounding_sensitive_cases"] = n_sens
     ck.assumptions += [
@@ -1029,6 +1039,12 @@ def run(ck: common.Check):
         "bool label volumes are called with seg ids inside the int64 range only (np.bool_ != <larger Python int> raises "
         "OverflowError inside numpy)",
         "the check graph_is_in_seg_bounds looks at axis maxima only (not minima), as documented",
+        "T13: the translator's tables (message texts -> Msg constructors, primitive typing) are trusted; the primitives of "
+        "GeffModel/PyDoSeg.lean are compared with Python / numpy one by one on small inputs, error points included "
+        "(primitive stream); not compared: np.take out of range on a ZERO-SIZE volume (numpy does not bounds-check there, "
+        "the model raises IndexError — unreachable behind the guard), the insertion of the default on a defaultdict read, "
+        "the value a Python dict keeps for a repeated key, Axis equality beyond the fields type/max (names are a function "
+        "of them in the stream)",
     ]
 
 
